@@ -156,6 +156,8 @@ int wanttype;
   {
    if (rrdlen < 4)
      return DNS_SOFT;
+   if (responseend - responsepos < 4)
+     return DNS_SOFT;
    ip.d[0] = responsepos[0];
    ip.d[1] = responsepos[1];
    ip.d[2] = responsepos[2];
@@ -193,6 +195,8 @@ int wanttype;
  if (rrtype == wanttype)
   {
    if (rrdlen < 3)
+     return DNS_SOFT;
+   if (responseend - responsepos < 3)
      return DNS_SOFT;
    pref = (responsepos[0] << 8) + responsepos[1];
    if (dn_expand(response.buf,responseend,responsepos + 2,name,MAXDNAME) < 0)
